@@ -228,4 +228,53 @@ theorem C02_items_finished (cfg : PartCfg) (num : Dict Str (List NumAttr)) (c : 
   rw [finish_leaves cfg s1 s' hq hfin hf, hl]
   simp [leavesP, h0]
 
+/-! ## from a list of siblings to items -/
+
+/-- group the siblings: an element that opens a paragraph first starts a group, which extends over the
+flat inline elements that follow; everything else is a block of its own -/
+def itemsGo : Option (List Xml) → List Xml → List Item
+  | none, [] => []
+  | some g, [] => [.grp g.reverse]
+  | none, x :: rest => if opensFirst x && flatInline x then itemsGo (some [x]) rest else .blk x :: itemsGo none rest
+  | some g, x :: rest => if flatInline x then itemsGo (some (x :: g)) rest else .grp g.reverse :: .blk x :: itemsGo none rest
+
+def itemsOf (ks : List Xml) : List Item := itemsGo none ks
+
+theorem itemsGo_src : ∀ (ks : List Xml) (acc : Option (List Xml)),
+    (itemsGo acc ks).flatMap Item.src = (match acc with | some g => g.reverse | none => []) ++ ks
+  | [], none => rfl
+  | [], some g => by simp [itemsGo, Item.src]
+  | x :: rest, none => by
+    simp only [itemsGo]
+    split
+    · rw [itemsGo_src rest (some [x])]; simp
+    · rw [List.flatMap_cons, itemsGo_src rest none]; simp [Item.src]
+  | x :: rest, some g => by
+    simp only [itemsGo]
+    split
+    · rw [itemsGo_src rest (some (x :: g))]; simp
+    · rw [List.flatMap_cons, List.flatMap_cons, itemsGo_src rest none]; simp [Item.src]
+
+theorem itemsOf_src (ks : List Xml) : (itemsOf ks).flatMap Item.src = ks := by
+  unfold itemsOf; rw [itemsGo_src]; rfl
+
+/-- the children of a part's body (of the root itself for headers, footers, notes) -/
+def bodyKids (root : Xml) : List Xml :=
+  if root.ptag == documentTag then
+    match root.kids.find? (fun k => k.ptag == bodyTag) with
+    | some b => b.kids
+    | none => root.kids
+  else root.kids
+
+/-- decidable, evaluated by the driver on every generated part: the siblings form a sequence `C02_items` speaks about -/
+def itemsOK (ks : List Xml) : Bool := okSeq false (itemsOf ks)
+
+/-- **`C02_items` for a list of siblings as it stands in the part** -/
+theorem C02_siblings (cfg : PartCfg) (num : Dict Str (List NumAttr)) (c : Bool) (ks : List Xml) (s s1 s' : DC)
+    (hok : itemsOK ks = true) (hs : Inv s) (h0 : s.openPars = [])
+    (hw : walkL cfg num c s ks = .ok s1) (hq : s1.queued = []) (hf : finish cfg s1 = .ok s') :
+    ∃ outs, ItemsMatch cfg (itemsOf ks) outs ∧ leafParsL s'.root = leafParsL s.root ++ outs.flatMap (ioLeaves cfg.dup) := by
+  have hw' : walkL cfg num c s ((itemsOf ks).flatMap Item.src) = .ok s1 := by rw [itemsOf_src]; exact hw
+  exact C02_items_finished cfg num c (itemsOf ks) s s1 s' hok hs h0 hw' hq hf
+
 end D2P
